@@ -785,6 +785,33 @@ type Solver struct {
 	level    int
 	scopedT  []int
 	scopedD  []string
+	needRestart bool
+	bin      string
+	args     []string
+	preamble []string
+}
+
+// restart replaces the solver process by a fresh one with an empty assertion stack (all definitions are re-sent on demand).
+func (s *Solver) restart() {
+	s.in.Close()
+	s.cmd.Process.Kill()
+	s.cmd.Wait()
+	cmd := exec.Command(s.bin, s.args...)
+	in, _ := cmd.StdinPipe()
+	outp, _ := cmd.StdoutPipe()
+	cmd.Stderr = cmd.Stdout
+	if err := cmd.Start(); err != nil {
+		panic(err)
+	}
+	s.cmd, s.in, s.out = cmd, in, bufio.NewReader(outp)
+	s.defined, s.declared = map[int]bool{}, map[string]bool{}
+	s.stack, s.transient, s.level, s.scopedT, s.scopedD = nil, false, 0, nil, nil
+	s.needRestart = false
+	s.send("(set-option :print-success false)")
+	s.send("(set-option :global-declarations true)")
+	for _, l := range s.preamble {
+		s.send(l)
+	}
 }
 
 func NewSolver(bin string, args ...string) *Solver {
@@ -795,7 +822,7 @@ func NewSolver(bin string, args ...string) *Solver {
 	if err := cmd.Start(); err != nil {
 		panic(err)
 	}
-	s := &Solver{cmd: cmd, in: in, out: bufio.NewReader(outp), defined: map[int]bool{}, declared: map[string]bool{}}
+	s := &Solver{cmd: cmd, in: in, out: bufio.NewReader(outp), defined: map[int]bool{}, declared: map[string]bool{}, bin: bin, args: args}
 	s.send("(set-option :print-success false)")
 	s.send("(set-option :global-declarations true)")
 	return s
@@ -921,6 +948,9 @@ func (s *Solver) ref(t *Term) string {
 
 // Check returns "sat","unsat","unknown" for the conjunction.
 func (s *Solver) Check(conj []*Term) string {
+	if s.needRestart {
+		s.restart()
+	}
 	s.Queries++
 	if s.Incremental {
 		var cl []*Term
@@ -996,6 +1026,15 @@ func (s *Solver) finishCheck() string {
 		s.Errors++
 		s.LastErr = res
 		if strings.HasPrefix(res, "(error") {
+			if strings.Contains(res, "canceled") {
+				// z3 prints (error "... push canceled") when its per-query timer fires inside push/assert: a timeout, not a
+				// rejected encoding. The answer is "unknown"; the process is replaced before the next query because its
+				// assertion stack may no longer match ours.
+				s.Errors--
+				s.NUnknown++
+				s.needRestart = true
+				return "unknown"
+			}
 			// an error line precedes the verdict; the verdict is not trustworthy
 			_ = s.readLine()
 			return "error"
